@@ -316,6 +316,9 @@ class Executor:
             real = real_method(m.name, attr)
             if real is not None and real[1] in ("method", "static"):
                 return [(path, BM(v, attr))]
+            cc = real_class_constant(m.name, attr)
+            if cc is not None:
+                return [(path, cc)]
             dyn = getattr(m, "dyn_attrs", None)
             if dyn is not None and attr in dyn:
                 # instance attribute kept in the object's __dict__ (a str-keyed dict)
@@ -1984,11 +1987,46 @@ def _class_index():
     return _CLASS_INDEX
 
 
+def _constant_value(val):
+    if isinstance(val, (ast.Set, ast.Tuple, ast.List)) and all(isinstance(e, ast.Constant) and isinstance(e.value, str) for e in val.elts):
+        return Py(("strset", frozenset(e.value for e in val.elts)))
+    if isinstance(val, ast.Constant) and isinstance(val.value, str):
+        return S(z3.StringVal(val.value))
+    if isinstance(val, ast.Constant) and isinstance(val.value, bool):
+        return B(z3.BoolVal(val.value))
+    if isinstance(val, ast.Constant) and isinstance(val.value, int):
+        return I(z3.IntVal(val.value))
+    return None
+
+
+def real_class_constant(cls_name: str, attr: str):
+    """A class-level constant (`X = {"a", "b"}` / str / int / bool in the class body of the real class or a base),
+    read through an instance or the class: a module constant that was moved into the class."""
+    idx = _class_index()
+    seen, stack = set(), [getattr(CLASSES.get(cls_name), "real_name", None) or cls_name]
+    while stack:
+        c = stack.pop(0)
+        if c in seen or c not in idx:
+            continue
+        seen.add(c)
+        _modname, cdef = idx[c]
+        for st in cdef.body:
+            tgt = None
+            if isinstance(st, ast.Assign) and len(st.targets) == 1 and isinstance(st.targets[0], ast.Name):
+                tgt, val = st.targets[0].id, st.value
+            elif isinstance(st, ast.AnnAssign) and isinstance(st.target, ast.Name) and st.value is not None:
+                tgt, val = st.target.id, st.value
+            if tgt == attr:
+                return _constant_value(val)
+        stack += [b.id for b in cdef.bases if isinstance(b, ast.Name)]
+    return None
+
+
 def real_method(cls_name: str, attr: str):
     """(qualname, kind) of method `attr` of the real class named like the class model (searching its bases), if that
     method exists and has NO contract; kind in method/static/class/property."""
     idx = _class_index()
-    seen, stack = set(), [cls_name]
+    seen, stack = set(), [getattr(CLASSES.get(cls_name), "real_name", None) or cls_name]
     while stack:
         c = stack.pop(0)
         if c in seen or c not in idx:
